@@ -69,6 +69,16 @@ def scanner_girs(rng, n_each):
             line += text.count('\n') + 3
         r = S.run(w['syms'], comments=comments, includes=['GLib', 'GObject', 'Gio'], dump=ET.ElementTree(ET.fromstring(w['dump'])), warnings=False)
         out.append(('documented world #%d' % b, r.xml, ['GLib', 'GObject', 'Gio']))
+    import c05
+    for b in range(n_each):
+        # reference graphs of aliases, callback types, functions and records, and structures with members of callback types, some
+        # of which are or turn out to be not introspectable: what stays introspectable must be something the compiler can resolve
+        nodes = c05.gen_world(rng)
+        gsyms, gcomments = c05.build(nodes, S)
+        r = S.run(gsyms, comments=gcomments, includes=['GLib', 'GObject'], warnings=False)
+        out.append(('reference graph #%d' % b, r.xml, ['GLib', 'GObject']))
+        out.append(('typed members world #%d' % b, c05.typed_member_world(rng, S, ET), ['GLib', 'GObject', 'Nib']))
+        out.append(('one unbindable callback type #%d' % b, lonely_world(rng, S, plain=(b % 2 == 0)), ['GLib', 'GObject']))
     import c07
     for b in range(n_each):
         out.append(('constants and members world #%d' % b, misc_world(rng, S, c07), ['GLib', 'GObject']))
@@ -80,6 +90,37 @@ def scanner_girs(rng, n_each):
 CONST_TYPES = ['gint', 'guint', 'gint8', 'guint8', 'gint16', 'guint16', 'gint32', 'guint32', 'gint64', 'guint64', 'glong', 'gulong', 'gshort',
                'gushort', 'gchar', 'guchar', 'gsize', 'gssize', 'gintptr', 'guintptr', 'gboolean', 'gfloat', 'gdouble', 'gunichar', 'GType',
                'time_t', 'off_t', 'gpointer', 'void*', 'gchar*', 'FooNope', 'FooMiscEnum', None]
+
+
+def lonely_world(rng, S, plain=False):
+    """ONE callback type that cannot be introspected (va_list, variable arguments or long long) and nothing else that is not
+    introspectable: a structure with a member of that type declared before or after it, optionally an alias of it and a function
+    taking it; whatever refers to it must not stay introspectable, or the compiler cannot resolve the reference"""
+    from giscanner.sourcescanner import CSYMBOL_TYPE_ELLIPSIS
+    bad = rng.choice([[S.param('fmt', S.ptr(S.td('gchar'))), S.param('args', S.td('va_list'))],
+                      [S.param('fmt', S.ptr(S.td('gchar'))), S.FS(CSYMBOL_TYPE_ELLIPSIS, None, base_type=None)],
+                      [S.param('v', S.basic('long long'))],
+                      [S.param('event', S.ptr(S.td('XEvent')))], [S.param('event', S.ptr(S.td('XEvent')))]])     # a type nobody describes
+    if plain:
+        bad = [S.param('event', S.ptr(S.td('XEvent')))]
+    cb = [S.cbtypedef('FooStepFunc', S.VOID, bad, line=10)]
+    rec = [S.FS(S.CSYMBOL_TYPE_TYPEDEF, 'FooRunner', base_type=S.FT(S.CTYPE_STRUCT, '_FooRunner'), line=20),
+           S.FS(S.CSYMBOL_TYPE_STRUCT, '_FooRunner', base_type=S.FT(S.CTYPE_STRUCT, '_FooRunner', child_list=[
+               S.FS(S.CSYMBOL_TYPE_MEMBER, 'n', base_type=S.td('gint'), line=22),
+               S.FS(S.CSYMBOL_TYPE_MEMBER, 'step', base_type=S.td('FooStepFunc'), line=23)]), line=21)]
+    rest = []
+    if rng.random() < 0.5:
+        rest.append(S.FS(S.CSYMBOL_TYPE_TYPEDEF, 'FooStepAlias', base_type=S.td('FooStepFunc'), line=30))
+    if rng.random() < 0.5:
+        rest.append(S.func('foo_runner_run', S.VOID, [S.param('self_', S.ptr(S.td('FooRunner'))), S.param('n', S.td('gint'))], line=40))
+    if rng.random() < 0.3:
+        rest.append(S.func('foo_set_step', S.VOID, [S.param('cb', S.td('FooStepFunc'))], line=41))
+    groups = [cb, rec, rest]
+    rng.shuffle(groups)
+    if plain:
+        groups = [rec, cb, rest]        # the structure first, then the callback type its member has
+    r = S.run([x for g in groups for x in g], comments=[], includes=['GLib', 'GObject'], warnings=False)
+    return r.xml
 
 
 def misc_world(rng, S, c07):
@@ -303,7 +344,7 @@ def main(tier, seed):
             n = os.path.basename(f)[:-len('-expected.gir')]
             shutil.copy(f, os.path.join(inc, n + '.gir'))
             shipped.append(('shipped ' + os.path.basename(f), open(f, encoding='utf-8').read(), None, n))
-        for n in ('GLib-2.0', 'GObject-2.0', 'Gio-2.0', 'Base-1.0', 'Mid-1.0', 'FooExt-1.0', 'cairo-1.0', 'Utility-1.0'):
+        for n in ('GLib-2.0', 'GObject-2.0', 'Gio-2.0', 'Base-1.0', 'Mid-1.0', 'FooExt-1.0', 'Nib-1.0', 'cairo-1.0', 'Utility-1.0'):
             rc, o = run([compiler, '--includedir', inc, os.path.join(inc, n + '.gir'), '-o', os.path.join(tmp, n + '.typelib')])
             if rc != 0:
                 ck.tie_broken('harness', 'cannot compile the stub dependency %s: %s' % (n, o[-500:]))
